@@ -62,7 +62,7 @@ PROFILES = {
     "C03": dict(pingpong=True, sel=plain, pure=True, events=[], threads=3),
     "C09": dict(lifetime=True, sel=lambda f: f["is_result"] and not f["cache_if"], pure=False, events=["tick"], threads=1),
     "C10": dict(lifetime=True, sel=lambda f: f["cache_if"], pure=False, events=["tick"], threads=1),
-    "C11": dict(lifetime=True, sel=lambda f: f["inval_on"], pure=False, events=["tick"], threads=1),
+    "C11": dict(refresh=True, lifetime=True, sel=lambda f: f["inval_on"], pure=False, events=["tick"], threads=1),
     "C12": dict(sel=lambda f: bool(f["tags"] or f["events"] or f["deps"]) or f["idx"] % 7 == 0, pure=True,
                 events=["tag", "event", "dep", "invc", "invcn"], threads=1, heavy_inval=True),
     "C13": dict(sel=lambda f: f["fl"] != "t" or f["idx"] % 5 == 0, pure=True,
@@ -75,7 +75,7 @@ PROFILES = {
     "C07": dict(pingpong=True, sel=lambda f: f["pol"] in ("fifo", "lru") and (f["limit"] or f["mem"]), pure=True, events=["invw", "invall"], threads=3),
     "C08": dict(pingpong=True, sel=lambda f: f["pol"] in ("lfu", "arc", "tlru") and (f["limit"] or f["mem"]), pure=True, events=["invw", "tick"], threads=3),
     "C15": dict(sel=lambda f: f["fl"] != "t", pure=True, events=["sget", "sreset", "sgetn", "tick", "invw"], threads=3),
-    "C19": dict(lifetime=True, sel=lambda f: True, pure=True, events=["tick", "tag", "invw", "sget"], threads=2),
+    "C19": dict(refresh=True, lifetime=True, sel=lambda f: True, pure=True, events=["tick", "tag", "invw", "sget"], threads=2),
     "C16": dict(sel=lambda f: True, pure=False, events=["tick", "tag", "event", "dep", "invc", "invw", "invall", "sget", "sreset"], threads=3),
 }
 
@@ -238,9 +238,44 @@ def gen_pingpong_case(r, fns, prof):
     return [f], evs
 
 
+def gen_refresh_case(r, fns, prof):
+    """a cache at capacity whose OLDEST (or another chosen) entry is judged stale and refreshed, with a value of
+    another size, followed by stores that need room: the refreshed entry is the newest one from then on"""
+    pool = [f for f in fns if prof["sel"](f) and f["inval_on"] and (f["limit"] or f["mem"]) and f["sig"] == 0]
+    if not pool:
+        return None
+    f = r.pick(pool)
+    cap = f["limit"] or 3
+    vc = [0]
+
+    def ev(x, inv=0, ln=8, dt=0):
+        vc[0] += 1
+        if prof["pure"]:
+            v, ln, ok = (f["idx"] * 37 + x * 11) % 500 + 1, LENS[x % 5], ((x % 3 != 0) if f["is_result"] else True)
+        else:
+            v, ok = vc[0], True
+        return "E %d call %d %d 0 %s %d %d %d 1" % (dt, f["idx"], x, "ok" if ok else "err", v, ln, inv)
+    evs = [ev(x) for x in range(cap)]
+    for _ in range(r.below(3)):
+        evs.append(ev(r.below(cap)))
+    victim = 0 if r.chance(2, 3) else r.below(cap)
+    evs.append(ev(victim, inv=1, ln=r.pick(LENS)))
+    for x in range(cap, cap + 1 + r.below(2)):
+        evs.append(ev(x, ln=r.pick(LENS[:3])))
+    order = list(range(cap + 2))
+    for x in order:
+        if r.chance(2, 3):
+            evs.append(ev(x))
+    return [f], evs
+
+
 def gen_case(r, fns, prof, nev):
     if prof.get("async_susp"):
         return gen_async_case(r, fns)
+    if prof.get("refresh") and r.chance(1, 5):
+        c = gen_refresh_case(r, fns, prof)
+        if c:
+            return c
     if prof.get("pingpong") and r.chance(1, 5):
         c = gen_pingpong_case(r, fns, prof)
         if c:
